@@ -61,9 +61,13 @@ FreshW == [on |-> FALSE, fin |-> FALSE, data |-> <<>>, cnt |-> 0, have |-> FALSE
 FreshR == [on |-> FALSE, fin |-> FALSE, k |-> 0, n |-> 0, data |-> <<>>, res |-> ""]
 Fresh == [reg |-> FALSE, est |-> FALSE, cw |-> FALSE, cl |-> FALSE, rcw |-> FALSE, rcl |-> FALSE, api |-> FALSE]
 
-\* w = StreamReceiveWindow, b = AcceptBacklog (the same configuration on both sides)
+\* Configuration.normalize: a negative window means no inbound data at all (0), a backlog below 1 means 1
+\* (WriteBufferCount below 1 means 1 as well; the pool size only matters through cap)
+NormW(w) == IF w < 0 THEN 0 ELSE w
+NormB(b) == IF b <= 0 THEN 1 ELSE b
+\* w = StreamReceiveWindow, b = AcceptBacklog as configured (the same configuration on both sides)
 InitS(w, b) ==
-  [w |-> w, b |-> b,
+  [w |-> NormW(w), b |-> NormB(b),
    ss |-> [e \in E |-> [s \in Ids |-> Fresh]],
    win |-> [e \in E |-> [s \in Ids |-> 0]],
    rbuf |-> [e \in E |-> [s \in Ids |-> <<>>]],
